@@ -169,7 +169,8 @@ class GlobalCoords(GlobalCoordsABC):
                 wcs_dropped = self._convert_dropped_to_internal(dropped_world)
                 all_coords.update(wcs_dropped)
 
-        ec_dropped = self._ndcube.extra_coords.dropped_world_dimensions
+        # A copy, as for the WCS above: the conversion consumes entries of the dictionary it is given.
+        ec_dropped = copy.deepcopy(self._ndcube.extra_coords.dropped_world_dimensions)
         if "value" in ec_dropped:
             all_coords.update(self._convert_dropped_to_internal(ec_dropped))
 
